@@ -32,9 +32,13 @@ def info_length(rng, max_info: int) -> int:
     return rng.choice([max_info, max_info - 1, rng.randint(600, max_info)])
 
 
-def frame_fields(rng, seq: int | None = None, hot: float | None = None, small: bool = False) -> dict:
-    nd = rng.choice([1, 1, 1, 2, 3, 4])
-    ns = rng.choice([1, 1, 1, 2, 3, 4])
+ADDR_1_TO_4 = [1, 1, 1, 2, 3, 4]
+ADDR_ANY = [1, 1, 1, 2, 3, 4, 4, 5, 6, 8]  # ISO/IEC 13239 extends address fields recursively: no fixed limit
+
+
+def frame_fields(rng, seq: int | None = None, hot: float | None = None, small: bool = False, addr=ADDR_1_TO_4) -> dict:
+    nd = rng.choice(addr)
+    ns = rng.choice(addr)
     head = 2 + nd + ns + 1
     max_info = 0x7FF - head - 4
     n = info_length(rng, max_info)
